@@ -671,9 +671,14 @@ class Interp:
                 fr.locals[name] = lib.make_symbolic(self, spec.types[name], name)
             elif name in fr.locals:
                 fr.locals[name] = lib.fresh_like(self, fr.locals[name], name)
-        # 3. assume invariant (+ counter range)
+        # 3. assume invariant (+ counter range: a range counter with positive step never falls below its start)
         for clause in spec.invariant:
             self.p.assume(self.formula_src(clause, fr))
+        if kind == 'for':
+            lo0 = counter[1].lo if counter[0] == 'range' else 0
+            stp = counter[1].step if counter[0] == 'range' else 1
+            if isinstance(stp, int) and stp > 0:
+                self.p.assume(self.term(fr.locals[idx_name]) >= self.term(lo0))
         # 4. guard
         m0 = None
         if kind == 'while':
@@ -1060,6 +1065,7 @@ class Interp:
             return self.call(target, args, kwargs, node)
         f = self.eval(node.func, fr)
         args, kwargs = self.eval_args(node, fr)
+        self.cur_frame = fr
         return self.call(f, args, kwargs, node, fr)
 
     def eval_args(self, node, fr):
